@@ -12,7 +12,8 @@
 (***************************************************************************)
 EXTENDS Rapid, Json
 
-CONSTANT Slack   \* one-sided allowance (ms) for upper time bounds
+CONSTANTS Slack,        \* one-sided allowance (ms) for upper time bounds
+          RestoreSlack  \* "shortly after" the hook timeout (ms)
 
 VARIABLES l,    \* position of the next trace line
           tp    \* number of lifecycle events of st.tel already matched
@@ -47,6 +48,7 @@ TBegin ==
     \* of an instance that is fresh except that the one-time init has been consumed (property C08)
     /\ st' = [State0(SetOf(T.files), SetOf(T.lf)) EXCEPT
                   !.timeoutMs = T.timeoutMs, !.strictTimer = T.strict,
+                  !.caching = T.feat,
                   !.srv.initOut = IF T.kind = "afterreset" THEN "closed" ELSE "unset"]
     /\ tp' = 0 /\ Adv
 
@@ -200,7 +202,22 @@ TShutdownRet ==
     /\ st' = DriverShutdownRetDo(st)
     /\ UNCHANGED tp /\ Adv
 
+TRestoreCall ==
+    /\ Is("RestoreCall")
+    /\ RestoreBeginEn(st) /\ st' = RestoreBeginDo(st, T.reason, T.t + T.timeoutMs)
+    /\ UNCHANGED tp /\ Adv
+
+TRestoreRet ==
+    /\ Is("RestoreRet")
+    /\ RestoreReturnEn(st)
+    /\ st.pcT.err = T.err
+    \* a hook that does not finish fails the restore no earlier than the hook timeout and shortly after it
+    /\ (T.err = "Runtime.RestoreHookUserTimeout" => T.t >= st.pcT.dl - 3 /\ T.t <= st.pcT.dl + RestoreSlack)
+    /\ st' = RestoreReturnDo(st)
+    /\ UNCHANGED tp /\ Adv
+
 Observable ==
+    \/ TRestoreCall \/ TRestoreRet
     \/ TBegin \/ TInitCall \/ TExec \/ TCall \/ TRet \/ TInvokeCall \/ TInvokeRet
     \/ TProcExit \/ TExitSend \/ TExitDelivered \/ TTerminate \/ TKillCall \/ TTel
     \/ TResetCall \/ TResetRet \/ TShutdownCall \/ TShutdownRet
@@ -256,6 +273,8 @@ Internal ==
             \/ Step(ResetFinishEn(st, x), ResetFinishDo(st, x))
             \/ Step(ResetClearEn(st, x), ResetClearDo(st, x))
             \/ Step(ResetServerClearEn(st, x), ResetServerClearDo(st, x))
+       \/ Step(RestoreAwaitEn(st), RestoreAwaitDo(st))
+       \/ Step(RestoreTimeoutEn(st) /\ NextT >= st.pcT.dl - 3 /\ (st.strictTimer => ~Urgent(st)), RestoreTimeoutDo(st))
        \/ Step(DriverShutdownLockEn(st), DriverShutdownLockDo(st, st.pcS.dl))
        \/ Step(ShutBeginEn(st), ShutBeginDo(st))
        \/ Step(ShutRuntimeExitedEn(st), ShutRuntimeExitedDo(st))
